@@ -69,8 +69,12 @@ inline rc::Gen<W> genW() {
     for (int g = 0; g < nrg; g++) {
       // rarely a row group large enough for level runs with three-byte run headers (>= 8192) and 16-bit page counters
       size_t rows = (size_t)*rc::gen::weightedOneOf<int>({{25, rc::gen::just(0)}, {150, irange(1, 40)}, {50, irange(41, 300)}, {25, irange(1100, 3000)}});
-      if (g == 0 && nrg <= 4 && *irange(0, 24) == 0) rows = (size_t)*rc::gen::element(8192, 8200, 16384, 16390, 20000, 33000, 40000, 66000);
+      if (g == 0 && nrg <= 4 && *irange(0, 17) == 0) rows = (size_t)*rc::gen::element(8192, 8200, 16384, 16390, 20000, 33000, 40000, 66000);
       if (rows >= 8192 && *irange(0, 1)) w.page_size = 1 << 20;
+      // half of the large groups: fixed-width columns cycle over as many distinct values as fill a codec window (32/64/128 KiB
+      // of page bytes between repetitions - "sensor id = i % 8192"), all in one page
+      size_t period_bytes = 0;
+      if (rows >= 8192 && *irange(0, 1)) { period_bytes = (size_t)*rc::gen::element(65536, 65536, 65536, 32768, 131072); w.page_size = 1 << 20; }
       w.fs.rg_rows.push_back((int64_t)rows);
       std::vector<pw::ChunkSpec> rg; std::vector<std::vector<int>> pc; std::vector<int> nl;
       for (auto &lf : lv) {
@@ -80,7 +84,14 @@ inline rc::Gen<W> genW() {
         if (lf.max_def) { auto p = nolev ? std::vector<uint8_t>(rows, 1) : *gf::presentGen(rows); for (auto x : p) cs.def.push_back(x); }
         cs.n = rows;
         size_t nn = 0; for (size_t i = 0; i < rows; i++) if (!lf.max_def || cs.def[i]) nn++;
-        if (rows > 400) { Bytes proto = *gf::valueGen(lf.type, lf.type_length); for (size_t i = 0; i < nn; i++) { Bytes v = proto; if (!v.empty()) v[0] = (uint8_t)(v[0] + i); if (lf.type == pq::BOOLEAN) v[0] &= 1; cs.values.push_back(v); } }
+        size_t fw = (lf.type == pq::INT32 || lf.type == pq::FLOAT) ? 4 : (lf.type == pq::INT64 || lf.type == pq::DOUBLE) ? 8 : lf.type == pq::FIXED_LEN_BYTE_ARRAY ? (size_t)lf.type_length : 0;
+        if (period_bytes && fw && period_bytes % fw == 0 && period_bytes / fw >= 2) {
+          size_t period = period_bytes / fw; uint64_t sd = 0x9E3779B97F4A7C15ull ^ ((uint64_t)*irange(1, 1 << 30) << 1 | 1);
+          std::vector<Bytes> base(std::min(period, nn), Bytes(fw));
+          for (auto &v : base) for (auto &x : v) x = (uint8_t)(gf::dxs(sd) >> 24);
+          for (size_t i = 0; i < nn; i++) cs.values.push_back(base[i % period]);
+        }
+        else if (rows > 400) { Bytes proto = *gf::valueGen(lf.type, lf.type_length); for (size_t i = 0; i < nn; i++) { Bytes v = proto; if (!v.empty()) v[0] = (uint8_t)(v[0] + i); if (lf.type == pq::BOOLEAN) v[0] &= 1; cs.values.push_back(v); } }
         else cs.values = *rc::gen::container<std::vector<Bytes>>(nn, gf::valueGen(lf.type, lf.type_length));
         if (rows) { pw::PageSpec pg; pg.end = rows; cs.pages.push_back(pg); }
         rg.push_back(cs); nl.push_back(nolevm);
